@@ -114,7 +114,7 @@ def _init_tables(repo: Repo) -> Dict[str, List[Tuple[bool, str]]]:
              and any("_window_reversals" in norm(x) for x in ast.walk(n))]
     if not loops:
         raise AnalysisError("R3.2: orientation expansion loop not found in BaseCooccurrenceVectorizer.__init__")
-    first = loops[0].body[0]
+    first = next((x for x in loops[0].body if isinstance(x, ast.If)), None)
     if not isinstance(first, ast.If):
         raise AnalysisError("R3.2: orientation expansion loop does not start with its dispatch")
     for key in ("directional", "before", "after"):
@@ -138,7 +138,7 @@ def _column_tables(repo: Repo) -> Dict[str, List[str]]:
     if not loops:
         raise AnalysisError("R3.2: column naming loop not found in _set_column_dicts")
     out: Dict[str, List[str]] = {}
-    cur = loops[0].body[0]
+    cur = next((x for x in loops[0].body if isinstance(x, ast.If)), None)
 
     def prefixes(stmts) -> List[str]:
         seq = []
@@ -519,7 +519,7 @@ def r3_8(repo: Repo) -> RuleResult:
             continue
         if any("_window_reversals" in norm(x) for x in ast.walk(lp)):
             # the reference expansion itself (R3.2): every *other* list it fills must get as many entries as the flags
-            first = lp.body[0] if lp.body and isinstance(lp.body[0], ast.If) else None
+            first = next((x for x in lp.body if isinstance(x, ast.If)), None)
             if first is None:
                 continue
             others = {norm(c.func.value) for c in ast.walk(lp) if isinstance(c, ast.Call) and isinstance(c.func, ast.Attribute)
